@@ -78,6 +78,9 @@ def zeroClass (g : GoSpec) (i : Int) : Prop := i = 0 ∧ (g.sharp = true ∨ (g.
 def altZeroPad (g : GoSpec) : Prop :=
   g.sharp = true ∧ g.zero = true ∧ g.minus = false ∧ g.prec = none ∧ g.wid.isSome = true ∧ (g.verb = 'x' ∨ g.verb = 'X')
 
+instance (g : GoSpec) (i : Int) : Decidable (zeroClass g i) := by unfold zeroClass; infer_instance
+instance (g : GoSpec) : Decidable (altZeroPad g) := by unfold altZeroPad; infer_instance
+
 theorem zeros_succ_append (k : Nat) (l : Str) : zeros k ++ '0' :: l = zeros (k + 1) ++ l := by
   simp [zeros, List.replicate_succ']
 
